@@ -59,6 +59,12 @@ def tpi_default(h, pairing="PM-PM", law="Spring", form="force", seed=0):
 
 def _stress_free(h, sysm, el, law, form, t0, q0, u0):
     qE, uE = el.qDOF, el.uDOF
+    # "the system assembles": the assembled system's force vector and its Jacobians can be evaluated at the initial state
+    hs = h.call("System.h evaluates at the initial state", sysm.h, t0, q0, u0)
+    if hs is not None:
+        h.eq("System.h(t0, q0, u0) = 0 (no other forces in the system)", hs, np.zeros(sysm.nu))
+    h.call("System.h_q evaluates at the initial state", sysm.h_q, t0, q0, u0)
+    h.call("System.h_u evaluates at the initial state", sysm.h_u, t0, q0, u0)
     E = el.E_pot(t0, q0[qE])
     h.eq("E_pot(t0, q0) = 0", E, 0.0)
     h.eq("System.E_pot(t0, q0) = 0", sysm.E_pot(t0, q0), 0.0)
@@ -73,7 +79,7 @@ def _stress_free(h, sysm, el, law, form, t0, q0, u0):
         h.eq("compliance residual at zero force c(t0, q0, u0, 0) = 0", el.c(t0, q0[qE], u0[uE], 0.0), 0.0)
 
 
-def revolute_default(h, first="RB", law="Spring", form="force", axis=2, seed=0):
+def revolute_default(h, first="RB", law="Spring", form="force", axis=2, seed=0, rotated=False):
     from cardillo.force_laws import Spring, KelvinVoigtElement, MaxwellElement
     h.option("arctan_hints", False)
     k = h.pos("k")
@@ -87,13 +93,55 @@ def revolute_default(h, first="RB", law="Spring", form="force", axis=2, seed=0):
         else:
             rp.el = MaxwellElement(rp.joint, k, h.pos("eta"))
         return [rp.el]
-    rp = lib.RevolutePair(h, seed=seed, axis=axis, first=first, extra=extra, angle0=ang0)
+    # rotated: the second body starts in another orientation than the first (exact rational unit quaternion)
+    Pb0 = None
+    if rotated:
+        from fractions import Fraction
+        Pb0 = h.arr([h.const(Fraction(1, 3)), h.const(Fraction(2, 3)), h.const(Fraction(2, 3)), h.const(0)]) if h.sym else np.array([1.0, 2.0, 2.0, 0.0]) / 3.0
+    rp = lib.RevolutePair(h, seed=seed, axis=axis, first=first, extra=extra, angle0=ang0, Pb0=Pb0)
     ok = h.call("System.assemble succeeds", lib.assemble, rp.sysm)
     if ok is None:
         return
     sysm = rp.sysm
     _stress_free(h, sysm, rp.el, law, form, sysm.t0, sysm.q0, sysm.u0)
     h.eq("reference angle is the initial joint angle", rp.el.l_ref, rp.joint.l(sysm.t0, sysm.q0[rp.joint.qDOF]))
+
+
+def tpi_reattach(h, law="Spring", form="force", seed=0):
+    """an element without l_ref attached to an ALREADY ASSEMBLED interaction after the system got a new initial state is stress-free there"""
+    from cardillo import System
+    from cardillo.discrete import RigidBody, PointMass
+    from cardillo.interactions import TwoPointInteraction
+    from cardillo.force_laws import Spring, KelvinVoigtElement, MaxwellElement
+    from cardillo.solver import SolverOptions
+    a = PointMass(1.0, q0=np.array([0.0, 0.0, -1.0]), name="a")
+    b = RigidBody(1.5, np.diag([1.0, 2.0, 3.0]), q0=np.array([1.0, 0.5, 0.25, 1.0, 0.0, 0.0, 0.0]), name="b")
+    tpi = TwoPointInteraction(a, b, B_r_CP2=np.array([0.25, 0.0, 0.125]), name="tpi")
+    sysm = System()
+    sysm.add(a, b, tpi, Spring(tpi, 3.0, l_ref=0.75, name="main"))
+    opts = SolverOptions(compute_consistent_initial_conditions=False)
+    lib.assemble(sysm)
+    q_new = np.concatenate([h.vec("n_ra", 3), h.vec("n_rb", 3), h.quat("n_P")])
+    ok = h.call("set_new_initial_state succeeds", lambda: sysm.set_new_initial_state(q_new, np.zeros(sysm.nu), 0.0, options=opts) or True, allowed=(AssertionError,))
+    k = h.pos("k")
+    if law == "Spring":
+        el = Spring(tpi, k, compliance_form=(form == "compliance"), name="parallel")
+    elif law == "KelvinVoigt":
+        el = KelvinVoigtElement(tpi, k, h.pos("d"), compliance_form=(form == "compliance"), name="parallel")
+    else:
+        el = MaxwellElement(tpi, k, h.pos("eta"), name="parallel")
+    sysm.add(el)
+    ok = h.call("System.assemble succeeds (re-assembly with the new element)", lib.assemble, sysm, allowed=(AssertionError,))
+    if ok is None:
+        return
+    t0, q0, u0 = sysm.t0, sysm.q0, sysm.u0
+    qE, uE = el.qDOF, el.uDOF
+    h.eq("E_pot(t0, q0) = 0", el.E_pot(t0, q0[qE]), 0.0)
+    if law == "Maxwell":
+        h.eq("force(t0, q0, u0) = 0", el.force(t0, q0[qE], u0[uE]), 0.0)
+    else:
+        h.eq("la_c(t0, q0, u0) = 0", el.la_c(t0, q0[qE], u0[uE]), 0.0)
+    h.eq("reference length is the length in the new initial configuration", el.l_ref, tpi.l(t0, q0[tpi.qDOF]))
 
 
 def cases(tier, seed):
@@ -108,4 +156,9 @@ def cases(tier, seed):
         for law, form in laws:
             for axis in (((seed + 2) % 3,) if tier == "quick" else (0, 1, 2)):
                 cs.append(Case(f"revolute/{first}/{law}/{form}/ax{axis}", revolute_default, dict(first=first, law=law, form=form, axis=axis, seed=seed), timeout=T))
+                if first == "RB" and (tier == "thorough" or law in ("Spring", "Maxwell")):
+                    cs.append(Case(f"revolute/RB-rotated/{law}/{form}/ax{axis}", revolute_default,
+                                   dict(first=first, law=law, form=form, axis=axis, seed=seed, rotated=True), timeout=T))
+    for law, form in laws:
+        cs.append(Case(f"tpi_reattach/{law}/{form}", tpi_reattach, dict(law=law, form=form, seed=seed), timeout=T))
     return cs
